@@ -70,6 +70,11 @@ func c19Expressions(thorough bool) []c19Expr {
 				// a binding must not leak out of its let into the enclosing scope
 				add("let $x = "+b1+" in [let $y = "+b2+" in "+body+", $y]", "leak-list/"+t)
 				add("let $x = "+b1+" in {p: let $y = "+b2+" in "+body+", q: $y}", "leak-hash/"+t)
+				// a let inside a binding expression that rebinds an outer name in terms of its outer value
+				add("let $x = "+b1+" in let $y = (let $x = [$x, "+b2+"] in $x) in "+body, "rebind-in-binding/"+t)
+				add("let $x = "+b1+" in let $x = "+b2+" in let $y = (let $x = [$x] in $x) in "+body, "rebind-in-binding-shadowed/"+t)
+				add("let $x = "+b1+", $y = (let $x = "+b2+" in [$x]) in "+body, "let-in-binding/"+t)
+				add("let $y = "+b2+" in let $x = (let $y = "+b1+" in $y) in "+body, "let-in-binding-nested/"+t)
 				// lets nested inside a projection: the outer one is rebound per element, the inner one aliases it
 				add("a[*].[let $x = "+b1+" in let $y = "+b2+" in "+body+"]", "nested-inside-projection/"+t)
 				add("map(&(let $x = "+b1+" in let $y = "+b2+" in "+body+"), a)", "nested-inside-expref/"+t)
@@ -85,6 +90,19 @@ func c19Expressions(thorough bool) []c19Expr {
 				}
 			}
 		}
+	}
+	// layout: the same let forms with every blank replaced by a tab, a line break, CR LF, two blanks, and with the
+	// blanks that the grammar does not need removed
+	base := append([]c19Expr{}, out...)
+	for i, e := range base {
+		if i%11 != 0 || strings.ContainsAny(e.Text, "'`\"") {
+			continue
+		}
+		for _, ws := range []string{"\t", "\n", "\r\n", "  ", "\n\t "} {
+			add(strings.ReplaceAll(e.Text, " ", ws), "layout/"+e.Shape)
+		}
+		tight := strings.NewReplacer(" = ", "=", ", ", ",", "let $", "let$", " in [", " in[", " in (", " in(", " in $", " in$", " | ", "|").Replace(e.Text)
+		add(tight, "layout-tight/"+e.Shape)
 	}
 	return out
 }
